@@ -17,7 +17,13 @@ import copy
 import random
 from typing import Any, Dict, List, Optional
 
-TEXTS = ["tell me about apple", "fig and apple", "what is kiwi", "pear", "apple", "nothing here"]
+TEXTS = ["tell me about apple", "fig and apple", "what is kiwi", "pear", "apple", "nothing here",
+         # the same request up to case / outer whitespace / inner whitespace / unicode normal form: whatever a key
+         # normalises away must not matter to the stage it fronts (the embedding is case- and form-sensitive)
+         "Tell Me About Apple", "TELL ME ABOUT APPLE", "  tell me about apple ", "tell me  about\tapple",
+         "caf\u00e9 apple", "cafe\u0301 apple", "\u00a0tell me about apple\u2003"]
+TEXT_VARIANT_PAIRS = [("caf\u00e9 apple", "cafe\u0301 apple"), ("Tell Me About Apple", "TELL ME ABOUT APPLE"),
+                      ("fig and apple", "Fig And Apple"), ("pear", " pear"), ("what is kiwi", "what  is kiwi")]
 NOWS = ["2025-09-01T00:00:00Z", "2025-12-01T00:00:00Z"]
 AGENTS = ["A", "B"]
 
@@ -79,6 +85,24 @@ WORLD1 = dict(WORLD1, graph=copy.deepcopy(WORLD0["graph"]))
 WORLD2 = {"graph": {"nodes": [["n:apple", "apple"], ["n:pear", "pear"], ["n:fig", "fig"], ["n:kiwi", "kiwi"]],
                     "edges": [["e1", "n:apple", "n:kiwi", 0.9, "supports"], ["e2", "n:pear", "n:fig", 0.0, "supports"]]},
           "episodes": copy.deepcopy(WORLD0["episodes"])}
+# WORLDX / WORLDY: IDENTICAL content (same node and edge ids, labels, endpoints, weights), different INSERTION ORDER
+# of nodes and edges.  T1 walks a node's out-edges in insertion order, so with an order-sensitive cap (relax_cap
+# below the seed's out-degree, queue budget, frontier cap) the two states have different T1 results.
+WORLDX = {"graph": {"nodes": [["n:apple", "apple"], ["n:pear", "pear"], ["n:fig", "fig"], ["n:kiwi", "kiwi"]],
+                    "edges": [["e1", "n:apple", "n:pear", 0.9, "supports"], ["e5", "n:apple", "n:kiwi", 0.9, "supports"],
+                              ["e2", "n:pear", "n:fig", 0.8, "supports"]]},
+          "episodes": copy.deepcopy(WORLD0["episodes"])}
+WORLDY = {"graph": {"nodes": list(reversed(copy.deepcopy(WORLDX["graph"]["nodes"]))),
+                    "edges": list(reversed(copy.deepcopy(WORLDX["graph"]["edges"])))},
+          "episodes": copy.deepcopy(WORLD0["episodes"])}
+# only the edge order / only the node order differs from WORLDX
+WORLDZ = {"graph": {"nodes": copy.deepcopy(WORLDX["graph"]["nodes"]),
+                    "edges": list(reversed(copy.deepcopy(WORLDX["graph"]["edges"])))},
+          "episodes": copy.deepcopy(WORLD0["episodes"])}
+WORLDW = {"graph": {"nodes": list(reversed(copy.deepcopy(WORLDX["graph"]["nodes"]))),
+                    "edges": copy.deepcopy(WORLDX["graph"]["edges"])},
+          "episodes": copy.deepcopy(WORLD0["episodes"])}
+ALL_WORLDS = [WORLD0, WORLD1, WORLD2, WORLDX, WORLDY, WORLDZ, WORLDW]
 BASE_CFG = {"t2": {"sim_threshold": -1.0, "tiers": ["exact_semantic"], "exact_recent_days": 30, "owner_scope": "agent",
                    "ranking": RANK0}}
 
@@ -140,7 +164,7 @@ def to_hist_case(case: dict) -> dict:
             o = {kk: vv for kk, vv in op.items() if kk != "dim"}
             o.setdefault("w", 0)
             ops.append(o)
-    worlds = [copy.deepcopy(WORLD0), copy.deepcopy(WORLD1), copy.deepcopy(WORLD2)][: case.get("nworlds", 1)]
+    worlds = [copy.deepcopy(w) for w in ALL_WORLDS][: case.get("nworlds", 1)]
     return {"mode": case["mode"], "cap": case.get("cap", 512), "ttl": case.get("ttl", 300), "worlds": worlds,
             "base": copy.deepcopy(BASE_CFG), "ops": ops}
 
@@ -230,6 +254,9 @@ def shrink_candidates(case: dict):
         yield dict(case, nworlds=1, ops=[dict(o, w=0) if "w" in o else o for o in ops])
     if case.get("nworlds", 1) > 2:
         yield dict(case, nworlds=2, ops=[dict(o, w=min(o["w"], 1)) if "w" in o else o for o in ops])
+    used = sorted({o["w"] for o in ops if "w" in o})
+    if used and max(used) + 1 < case.get("nworlds", 1):
+        yield dict(case, nworlds=max(used) + 1)
     if case.get("cap", 512) != 512:
         yield dict(case, cap=512)
     if case.get("ttl", 300) != 300:
@@ -250,7 +277,7 @@ def _dims_for_mode(mode: str) -> List[str]:
 def gen_history(rng: random.Random, i: int) -> dict:
     from harness.lib.c05_hist import MODES
     mode = MODES[i % len(MODES)] if rng.random() < 0.8 else rng.choice(MODES)
-    nworlds = rng.choice([2, 3]) if rng.random() < (0.3 if mode.startswith("t1") else 0.12) else 1
+    nworlds = rng.choice([2, 3, 7, 7]) if rng.random() < (0.35 if mode.startswith("t1") else 0.12) else 1
     case = {"mode": mode, "cap": rng.choice([1, 2, 512, 512]), "ttl": rng.choice([0, 5, 300, 300]),
             "nworlds": nworlds, "ops": []}
     ops = case["ops"]
@@ -265,7 +292,7 @@ def gen_history(rng: random.Random, i: int) -> dict:
     nturn = rng.choice([2, 3, 3, 4, 5])
     last_sets: List[dict] = []
     for t in range(nturn):
-        ops.append({"op": "turn", "w": rng.randrange(nworlds)})
+        ops.append({"op": "turn", "w": (rng.choice([3, 4, 5, 6]) if nworlds == 7 and rng.random() < 0.75 else rng.randrange(nworlds))})
         if t == nturn - 1:
             break
         for _ in range(rng.choice([0, 1, 1, 1, 2])):
@@ -298,8 +325,8 @@ def sweep_cases() -> List[dict]:
     """2-step histories: turn, change ONE dimension, turn (same state) — per cache configuration."""
     out = []
 
-    def hist(mode, change_ops, pre=(), nworlds=1, second_w=0):
-        ops = list(pre) + [{"op": "turn", "w": 0}] + list(change_ops) + [{"op": "turn", "w": second_w}]
+    def hist(mode, change_ops, pre=(), nworlds=1, second_w=0, first_w=0):
+        ops = list(pre) + [{"op": "turn", "w": first_w}] + list(change_ops) + [{"op": "turn", "w": second_w}]
         return {"mode": mode, "cap": 512, "ttl": 300, "nworlds": nworlds, "ops": ops, "sweep": True}
 
     def changes_for(dim):
@@ -321,6 +348,20 @@ def sweep_cases() -> List[dict]:
             out.append(hist(mode, [copy.deepcopy(n)]))
         out.append(hist(mode, [], nworlds=2, second_w=1))
         out.append(hist(mode, [], nworlds=3, second_w=2))
+    # identical content, different insertion order, under every order-sensitive cap
+    order_pre = [[{"op": "set", "dim": "relax_cap", "val": 1}], [{"op": "set", "dim": "relax_cap", "val": 0}],
+                 [{"op": "set", "dim": "queue_budget", "val": 2}], [{"op": "set", "dim": "slice_t1_pops", "val": 2}],
+                 [{"op": "set", "dim": "node_budget", "val": 0.5}], [],
+                 [{"op": "set", "dim": "text", "val": "fig and apple"},
+                  {"op": "set", "dim": "perf_frontier", "val": copy.deepcopy(CFG_DIMS["perf_frontier"][1][1])}]]
+    for mode in ("t1_lru", "t1_bytes"):
+        for pre in order_pre:
+            for a, b in ((3, 4), (4, 3), (3, 5), (5, 3)):
+                out.append(hist(mode, [], pre=pre, nworlds=7, first_w=a, second_w=b))
+        out.append(hist(mode, [], nworlds=7, first_w=3, second_w=6))          # node order only
+        out.append(hist(mode, [], nworlds=7, first_w=6, second_w=3))
+    for a, b in ((3, 5), (5, 3)):
+        out.append(hist("all_lru", [], pre=order_pre[0], nworlds=7, first_w=a, second_w=b))
     t2_dims = sorted(T2_CFG) + ["agent", "now", "slice_t2_k", "text"]
     for mode in ("t2_lru", "t2_bytes"):
         for d in t2_dims + ["decay_rate", "slice_t1_pops"]:
@@ -342,6 +383,12 @@ def sweep_cases() -> List[dict]:
             out.append(hist(mode, [copy.deepcopy(e)], pre=kill))
         out.append(hist(mode, [], pre=kill, nworlds=2, second_w=1))
         out.append(hist(mode, [{"op": "set", "dim": "kill", "val": False}], pre=kill))
+    # text variants against each other (not only against the default text), version frozen by the kill switch
+    for mode in ("t1_lru", "t2_lru", "t2_bytes", "turn", "all_lru", "all_bytes"):
+        for a, b in TEXT_VARIANT_PAIRS:
+            for x, y in ((a, b), (b, a)):
+                out.append(hist(mode, [{"op": "set", "dim": "text", "val": y}],
+                                pre=kill + [{"op": "set", "dim": "text", "val": x}]))
         for d in ("agent", "k_retrieval", "now"):
             out.append(hist(mode, changes_for(d)[0]))                      # kill switch off: the version moves
         out.append(hist(mode, [copy.deepcopy(EDGE_EDITS[0])]))
